@@ -4,7 +4,11 @@ import (
 	"context"
 	"encoding/json"
 	"fmt"
+	"os"
+	"path/filepath"
+	"runtime"
 	"strings"
+	"syscall"
 	"testing"
 	"testing/synctest"
 	"time"
@@ -122,6 +126,15 @@ func tick(s *vlib.Sys, crontab string) { s.Op.ScheduleManager.Ch() <- crontab }
 // and calls FailNow when the race detector reported anything during it (the
 // unchanged tree has benign races); that must end the bubble's subtest only,
 // not the case runner. Verdicts never come from go test's PASS/FAIL.
+// processCPU is the CPU time (user+system) this process has used so far.
+func processCPU() time.Duration {
+	var ru syscall.Rusage
+	if err := syscall.Getrusage(syscall.RUSAGE_SELF, &ru); err != nil {
+		return 0
+	}
+	return time.Duration(ru.Utime.Nano() + ru.Stime.Nano())
+}
+
 func inBubble(c *vlib.Case, body func(t *testing.T)) {
 	done := make(chan struct{})
 	go func() {
@@ -151,6 +164,7 @@ func inBubble(c *vlib.Case, body func(t *testing.T)) {
 	defer tk.Stop()
 	start := time.Now()
 	last, lastAt := vlib.Progress.Load(), time.Now()
+	cpuAt := processCPU()
 	for {
 		select {
 		case <-done:
@@ -158,9 +172,20 @@ func inBubble(c *vlib.Case, body func(t *testing.T)) {
 		case <-tk.C:
 			if p := vlib.Progress.Load(); p != last {
 				last, lastAt = p, time.Now()
+				cpuAt = processCPU()
 			}
 			if time.Since(start) > 60*time.Second && time.Since(lastAt) > 45*time.Second {
-				c.Frozen = "synctest bubble frozen (no instrumentation point hit for 45 s of real time; a goroutine is blocked on a mutex whose holder waits for a virtual timer) - harness limitation, case abandoned"
+				// a starved machine is not a frozen bubble: a bubble that still gets (and uses) CPU time is alive
+				if used := processCPU() - cpuAt; used > 2*time.Second {
+					lastAt, cpuAt = time.Now(), processCPU()
+					continue
+				}
+				// keep the goroutine dump: who waits for which lock
+				buf := make([]byte, 4<<20)
+				buf = buf[:runtime.Stack(buf, true)]
+				dump := filepath.Join(c.Dir, "frozen-goroutines.txt")
+				_ = os.WriteFile(dump, buf, 0o644)
+				c.Frozen = "synctest bubble frozen: no instrumentation point hit and no CPU used for 45 s of real time (a goroutine is blocked on a mutex that is never released, or whose holder waits for a virtual timer); goroutine dump: " + dump
 				return
 			}
 		}
